@@ -837,6 +837,13 @@ class RTDCBase(abc.ABC):
                     f"Encountered cyclic basin dependency '{bdict['key']}'",
                     feat_basin.CyclicBasinDependencyFoundWarning)
                 continue
+            if (bc[bdict["format"]].basin_type == "file"
+                    and not self._local_basins_allowed):
+                # The basin format accesses the local file system, whatever
+                # the basin type claims to be (e.g. "remote" or "internal").
+                warnings.warn(f"Basin format '{bdict['format']}' not "
+                              f"allowed for format '{self.format}'")
+                continue
 
             # Basin initialization keyword arguments
             kwargs = {
